@@ -589,7 +589,10 @@ impl World {
     }
 
     /// Execute `n` random operations against `txn`, mirroring them in `work`.
-    pub fn do_ops(&mut self, txn: &WriteTransaction, work: &mut Contents, n: usize) -> R<()> {
+    /// returns whether the transaction certainly became dirty (a table was opened, deleted or
+    /// renamed); a rename that found no free target name is a no-op
+    pub fn do_ops(&mut self, txn: &WriteTransaction, work: &mut Contents, n: usize) -> R<bool> {
+        let mut touched = false;
         let mut open: BTreeMap<String, OpenT<'_>> = BTreeMap::new();
         for _ in 0..n {
             let roll = self.rng.below(100);
@@ -611,6 +614,7 @@ impl World {
                     .map_err(se("delete_table"))?;
                     ensure!(existed, "delete_table({name}) returned false for an existing table");
                     work.remove(&name);
+                    touched = true;
                     self.bump("op.delete_table");
                 } else {
                     let mut to = None;
@@ -634,6 +638,7 @@ impl World {
                         .map_err(se("rename_table"))?;
                         let t = work.remove(&name).unwrap();
                         work.insert(to, t);
+                        touched = true;
                         self.bump("op.rename_table");
                     }
                 }
@@ -650,6 +655,7 @@ impl World {
                 }
                 tr!(self, "open {name}");
                 let t = open_t(txn, &name)?;
+                touched = true;
                 work.entry(name.clone()).or_insert_with(|| TableModel::new(kind));
                 open.insert(name.clone(), t);
             }
@@ -812,7 +818,7 @@ impl World {
                 }
             }
         }
-        Ok(())
+        Ok(touched)
     }
 
     fn all_savepoint_orders(&self) -> Vec<(u64, bool, usize, u64)> {
@@ -967,8 +973,9 @@ impl World {
 
         // -- optional writes before a restore
         if plan.pre_ops > 0 {
-            self.do_ops(&txn, &mut work, plan.pre_ops)?;
-            dirty = true;
+            if self.do_ops(&txn, &mut work, plan.pre_ops)? {
+                dirty = true;
+            }
         }
 
         // -- restore
@@ -1422,12 +1429,14 @@ impl World {
                     if self.judge_compact_size {
                         let grew = ((after_len - before_len) / ps) as u64;
                         let region = self.cfg.region_pages.unwrap_or(u64::MAX);
-                        // classification used by known_findings.json: an already packed database
-                        // (at most 16 free pages) growing by no more than one region
-                        let class = if free_before <= 16 && grew <= region {
-                            "packed database, growth within one region"
+                        // classification used by known_findings.json: the file ends at most one
+                        // region beyond where it was (compact()'s own bookkeeping commits need
+                        // scratch pages and the final trim does not give them back); growth by more
+                        // than a region would be something else
+                        let class = if grew <= region {
+                            "growth within one region"
                         } else {
-                            "unexpected growth"
+                            "growth beyond one region"
                         };
                         self.soft.push(format!(
                             "compact() grew the file from {before_len} to {after_len} bytes [{class}] (grew by {grew} pages; {free_before} free pages before; region of {region} pages)"
